@@ -387,12 +387,15 @@ let run_case op t =
             | UB _ -> join (List.rev ("ub" :: acc))
             | OutOfFuel -> join (List.rev ("fuel" :: acc)))
       in
+      (* spec leg: std::basic_string while it defines a result that fits; where it does not, the DOCUMENTED outcome:
+         "contract" when the documented precondition (pre_doc = Total.pre_ok, C04_step_outcome) is false, otherwise
+         (the library clamps / returns an empty string: no independent answer) the whole leg is "na" *)
       let rec go_s l acc = function
         | [] -> join (List.rev acc)
         | (name, subs) :: r -> (
             let rec run_subs l ret = function
-              | [] -> Some (l, ret)
-              | (_, fs) :: more -> (
+              | [] -> `Done (l, ret)
+              | (fm, fs) :: more -> (
                   let o = fs l in
                   let ret' =
                     if name = "sws" then ret else
@@ -401,11 +404,17 @@ let run_case op t =
                     | None, Some n -> [ "R"; zs n ]
                     | _ -> (match o with SSwapWith _ -> [ "O"; list_s l ] | _ -> ret)
                   in
-                  match spec_step_fits cap l o with Some l' -> run_subs l' ret' more | None -> None)
+                  match spec_step_fits cap l o with
+                  | Some l' -> run_subs l' ret' more
+                  | None -> (
+                      match mk_str cap ck l with
+                      | Ok st -> if pre_doc st (fm st) then `Na else `Stop
+                      | _ -> `Na))
             in
-            match (if arg_exists name subs (default_str cap ck) then run_subs l [] subs else None) with
-            | Some (l', ret) -> go_s l' (join (list_s l' :: ret) :: acc) r
-            | None -> "na")
+            match (if arg_exists name subs (default_str cap ck) then run_subs l [] subs else `Na) with
+            | `Done (l', ret) -> go_s l' (join (list_s l' :: ret) :: acc) r
+            | `Stop -> join (List.rev ("contract" :: acc))
+            | `Na -> "na")
       in
       (go_m (default_str cap ck) [ "ok" ] ops, if raw then "na" else go_s [] [ "ok" ] ops)
   | "replacei" | "replaceip" | "replaceiz" | "replacef" -> (
